@@ -203,6 +203,10 @@ size_t va_block_size(const void* p) {
   struct va_ent* e = va_find(p);
   return e ? e->size : (size_t)-1;
 }
+long va_block_id(const void* p) {
+  struct va_ent* e = va_find(p);
+  return e ? e->id : -1;
+}
 void va_install(void) { cbor_set_allocs(va_malloc, va_realloc, va_free); }
 void va_reset_counters(void) {
   long live = va.live;
